@@ -211,6 +211,7 @@ class AppRun:
             builder.factory.class_map['Resolver'] = make_resolver_class(
                 self.site['hosts'], net)
             _patch_conn_names(net)
+            _patch_host_pool()
             app = builder.build()
             self.app, self.builder, self.net, self.env, self.loop, self.peer = \
                 app, builder, net, env, loop, peer
@@ -263,6 +264,40 @@ class AppRun:
             return out
         except Exception as e:
             return {'!error': repr(e)}
+
+
+class _DetSet(set):
+    """set whose pop() does not depend on id()-based hashing (idle connections of one host
+    are interchangeable, so a fixed order loses no behaviour)."""
+
+    def pop(self):
+        if not self:
+            raise KeyError('pop from an empty set')
+        item = min(self, key=lambda c: getattr(c, '_verif_seq', 0))
+        self.remove(item)
+        return item
+
+
+def _patch_host_pool():
+    import wpull.network.pool as poolmod
+    real = getattr(poolmod.HostPool, '_verif_real', poolmod.HostPool)
+    counter = [0]
+
+    class VHostPool(real):
+        _verif_real = real
+
+        def __init__(self, *a, **kw):
+            super().__init__(*a, **kw)
+            self.ready = _DetSet()
+            factory = self._connection_factory
+
+            def numbered():
+                c = factory()
+                counter[0] += 1
+                c._verif_seq = counter[0]
+                return c
+            self._connection_factory = numbered
+    poolmod.HostPool = VHostPool
 
 
 def _patch_conn_names(net):
